@@ -40,7 +40,7 @@ def main():
                 print("anchor failed: %s\n%s" % (a, r.tail(15)))
         print("anchors run: %d" % len(anchors))
         # recorded vectors from independent implementations (hashlib, hmac, OpenSSL; see tools/gen_anchors.py)
-        for mod, fn in (("trace/OracleHash.tla", "hash_anchors.ndjson"),):
+        for mod, fn in (("trace/OracleHash.tla", "hash_anchors.ndjson"), ("trace/OracleAead.tla", "aead_anchors.ndjson"), ("trace/OracleStream.tla", "stream_anchors.ndjson")):
             src = os.path.join(vlib.SPEC, "anchors", fn)
             files = R.split_file(src, 8, fn)
             total, bad = R.oracle(mod, files, timeout=1800)
